@@ -9,7 +9,7 @@ SP = importlib.import_module('pdb2sql.superpose')
 ID = 'C06'
 LEVEL = 'proof'
 CLUSTER = 'D'
-GEN_UNITS = ['quaternion', 'kabsch', 'rotate', 'superpose_glue']
+GEN_UNITS = ['quaternion', 'kabsch', 'rotate', 'superpose_glue', 'kabsch_core', 'get_rotation_matrix_Kabsh']
 PIN_TARGETS = ['PdbVerif.Pins.D']
 RULE = ('centred point-set pairs, n in {1,2,3,4,10,50}, families generic / coplanar / collinear / single point / identical / '
         'mirror image (negative-determinant covariance) / near-equal singular values / noisy rigid copy / exactly rank-deficient '
@@ -324,9 +324,17 @@ def impl(ctx, c):
 
 def driver_line(c):
     d = {k: v for k, v in c.items() if k not in ('family', 'n', 'scale_in', 'obs', 'self')}
-    for k, v in c.get('obs', {}).items():
+    obs = c.get('obs') or {}
+    for k, v in obs.items():
         if k not in ('eig_complex', 'eigh_max', 'decomp_defect', 'eig_routine'):
             d[k] = v
+    # nothing recorded (the implementation raised, or never called the routine): neutral factors, so that the drivers still answer;
+    # agree_model then reports the missing recording as a disagreement instead of the harness stopping without a verdict
+    if c['op'] == 'kabsch' and 'V' not in d:
+        one = ['1/1', '0/1', '0/1', '0/1', '1/1', '0/1', '0/1', '0/1', '1/1']
+        d.update({'V': one, 's': ['1/1', '1/1', '1/1'], 'Wt': one})
+    if c['op'] == 'quat' and 'eig' not in d:
+        d['eig'] = [['1/1', ['1/1', '0/1', '0/1', '0/1']]]
     return d
 
 
@@ -338,6 +346,18 @@ def _maxdiff(a, b):
     return max(abs(unrat(x) - unrat(y)) for x, y in zip(a, b))
 
 
+def total(f):
+    """a comparison never raises: what it cannot make sense of is a disagreement"""
+    def g(c, out, other):
+        try:
+            return f(c, out, other)
+        except Exception as e:
+            return f'comparison impossible ({type(e).__name__}: {e}); implementation output {str(out)[:120]}'
+    g.__name__ = f.__name__
+    return g
+
+
+@total
 def agree_model(c, out, model):
     op = c['op']
     if op == 'superpose_sel':
@@ -368,6 +388,10 @@ def agree_model(c, out, model):
         return f'rotation matrices differ by {float(d):.3e}'
     ct = model['contract']
     obs = c.get('obs', {})
+    if op == 'kabsch' and 's' not in obs:
+        return 'the implementation returned a matrix without calling np.linalg.svd'
+    if op == 'quat' and 'eig' not in obs:
+        return 'the implementation returned a matrix without calling np.linalg.eigh / eig'
     if op == 'kabsch':
         smax = max(unrat(obs['s'][0]), Fraction(1, 10**300))
         if unrat(ct['factor']) > TOL * smax or unrat(ct['orthV']) > TOL or unrat(ct['orthW']) > TOL or not ct['ordered']:
@@ -395,6 +419,7 @@ def _cert_ok(cert):
     return bad
 
 
+@total
 def agree_spec(c, out, spec):
     op = c['op']
     if op == 'superpose_sel':
